@@ -1107,6 +1107,31 @@ func (g *gen) genDevice(b *vdev) (*vdev, []string) {
 		a.add("crypto map crypto-mgmt 1 set ikev1 transform-set " + tsn)
 		a.add("crypto map crypto-mgmt interface mgmt")
 		say("unknown-interface-with-crypto-map")
+		if r.Chance(60) {
+			// the same interface also carries hand-made access-groups (ACL with an object-group): both kinds of binding are the
+			// administrator's, in whatever order they stand in the configuration
+			a.add("object-group network g-mgmt", "network-object host 10.50.0.10", "network-object 10.50.1.0 255.255.255.0")
+			acl := []*block{{Head: "access-list mgmt_in extended permit tcp any4 object-group g-mgmt eq 22"},
+				{Head: "access-list mgmt_in extended deny ip any4 any4"}}
+			bind := []*block{{Head: "access-group mgmt_in in interface mgmt"}}
+			if r.Chance(40) {
+				acl = append(acl, &block{Head: "access-list mgmt_out extended permit ip object-group g-mgmt any4"})
+				bind = append(bind, &block{Head: "access-group mgmt_out out interface mgmt"})
+			}
+			a.Blocks = append(a.Blocks, acl...)
+			if r.Chance(50) {
+				a.Blocks = append(a.Blocks, bind...)
+			} else {
+				// before the crypto map binding
+				for i, x := range a.Blocks {
+					if x.Head == "crypto map crypto-mgmt interface mgmt" {
+						a.Blocks = append(a.Blocks[:i:i], append(bind, a.Blocks[i:]...)...)
+						break
+					}
+				}
+			}
+			say("unknown-interface-with-access-group-and-crypto-map")
+		}
 	}
 	if r.Chance(12) {
 		var w *block
